@@ -154,6 +154,8 @@ class Session:
                 _ = [s.alias for s in self.net.species]
                 _ = [str(r) for r in self.net.reaction_list[:3]]
                 _ = self.net.find_source_sink()
+                if st.get("where"):
+                    _ = self.net.where_species(st["where"])
             elif kind == "render":
                 out = os.path.join(self.dir, f"out{self.nrender}")
                 shutil.rmtree(out, ignore_errors=True)
